@@ -1021,3 +1021,165 @@ def gen_codec(seed, n, start_id=0):
             lines.append("%s %s" % (kind, enc(b)))
         out.append((hid, lines))
     return out
+
+
+# ---------------------------------------------------------------------------------------------
+# C19 / C20: v2 histories in the form v2 requires (at most one write or removal per key per
+# version), with the option grid, reloads at retained versions, pruning and snapshots
+
+def gen_v2(seed, n, start_id=0, persist=False):
+    out = []
+    for i in range(n):
+        r = random.Random((seed * 86028121 + start_id + i) & 0xFFFFFFFFFFFF)
+        hid = "w%d" % (start_id + i)
+        ckpt = r.choice([1, 2, 3, 5, 1000])
+        shard = r.randint(0, 1)
+        cfgline = "cfg ckpt=%d hf=%d ed=%d shard=%d" % (ckpt, r.choice([0, 1, 1, 2]), r.choice([-1, 0, 1, 8]), shard)
+        lines = ["new " + hid, cfgline, "open"]
+        big = r.random() < 0.15
+        nk = r.randint(15, 40) if big else r.randint(2, 9)
+        keys = list(dict.fromkeys(
+            [bytes([r.randrange(256) for _ in range(r.randint(1, 4))]) for _ in range(nk)] if big else r.sample(KEYS, min(nk, len(KEYS)))))
+        working = {}
+        versions = {}     # version -> contents
+        wlog = {}         # version -> write lines
+        checkpoints = []
+        ver = 0
+        nv = r.randint(2, 9)
+
+        def bound():
+            x = r.random()
+            if x < 0.3:
+                return None
+            return r.choice(keys) if x < 0.8 else r.choice(keys) + b"\x00"
+
+        def reads(m):
+            for _ in range(r.randint(0, 4)):
+                x = r.random()
+                k = r.choice(keys) if r.random() < 0.8 else r.choice(keys) + b"\x01"
+                if x < 0.35:
+                    lines.append("get " + enc(k))
+                elif x < 0.5:
+                    lines.append("has " + enc(k))
+                elif x < 0.6:
+                    lines.append("size")
+                    lines.append("height")
+                elif x < 0.8:
+                    lines.append("iter %s %s %s" % (enc(bound()), enc(bound()), r.choice(["asc", "desc"])))
+                else:
+                    lines.append("iterinc %s %s asc" % (enc(bound()), enc(bound())))
+
+        def sweep(m):
+            lines.append("chash")
+            lines.append("size")
+            lines.append("iter - - asc")
+            lines.append("iter - - desc")
+            for k in sorted(set(keys) | set(m)):
+                lines.append("get " + enc(k))
+
+        def one_version():
+            nonlocal ver
+            w = []
+            touched = set()
+            if r.random() > 0.2:
+                for _ in range(r.randint(0, 6)):
+                    k = r.choice(keys)
+                    if k in touched:
+                        continue
+                    touched.add(k)
+                    if k in working and r.random() < 0.35:
+                        w.append("rm " + enc(k))
+                        del working[k]
+                    else:
+                        v = bytes([r.randrange(256) for _ in range(r.choice([0, 1, 2, 8]))])
+                        w.append("set %s %s" % (enc(k), enc(v)))
+                        working[k] = v
+            if r.random() < 0.1 and working and len(touched) < len(working):
+                # trees that shrink to empty
+                for k in sorted(working):
+                    if k not in touched:
+                        w.append("rm " + enc(k))
+                        del working[k]
+            lines.extend(w)
+            reads(working)
+            lines.append("save")
+            ver += 1
+            versions[ver] = dict(working)
+            wlog[ver] = w
+            if ver == 1 or (ckpt > 0 and ver - checkpoints[-1] >= ckpt):
+                checkpoints.append(ver)
+
+        for _ in range(nv):
+            one_version()
+            if r.random() < 0.3:
+                sweep(working)
+        sweep(working)
+        if persist:
+            pruned_to = 0
+            snapped = set()
+            for _ in range(r.randint(1, 4)):
+                x = r.random()
+                loadable = [v for v in versions if v >= max([c for c in checkpoints if c <= pruned_to] or [min(versions)])]
+                if x < 0.6:
+                    tgt = r.choice(loadable)
+                    lines.append("close")
+                    lines.append("open %d" % tgt)
+                    working = dict(versions[tgt])
+                    sweep(working)
+                    # continuing the history from there yields the same hashes as the uninterrupted run
+                    v = tgt
+                    # K22: continuing the history from a reloaded *older* version is not supported by v2 (sharded
+                    # tables: "table tree_N already exists"; unsharded: a later prune leaves the latest version
+                    # unloadable): generation continues only from the latest version (below)
+                    while v + 1 in versions and r.random() < 0.7 and False:
+                        lines.extend(wlog[v + 1])
+                        lines.append("save")
+                        v += 1
+                        working = dict(versions[v])
+                    sweep(working)
+                    ver = v
+                    if tgt == max(versions) and r.random() < 0.7:
+                        # continue the history after a restart at the latest version
+                        for _ in range(r.randint(1, 3)):
+                            one_version()
+                        sweep(working)
+                    # drop the shadow of versions above what was re-committed (they are overwritten on continue)
+                    if v == max(versions):
+                        pass
+                    else:
+                        # return to the latest version for the next round
+                        lines.append("close")
+                        lines.append("open %d" % max(versions))
+                        working = dict(versions[max(versions)])
+                        ver = max(versions)
+                elif x < 0.8 and len(versions) > 2 and ver == max(versions):
+                    ptgt = r.randint(1, max(versions) - 1)
+                    if ptgt > pruned_to:
+                        lines.append("prune %d" % ptgt)
+                        pruned_to = ptgt
+                        lines.append("close")
+                        lines.append("open %d" % max(versions))
+                        working = dict(versions[max(versions)])
+                        sweep(working)
+                elif ver == max(versions) and ver not in snapped and versions[ver]:
+                    snapped.add(ver)
+                    if r.random() < 0.5:
+                        lines.append("snapshot")
+                        lines.append("loadsnap %d pre" % ver)
+                        sweep(working)
+                        # back to a tree loaded from the version tables before anything else is done with it
+                        # (pruning on a snapshot-loaded Tree object ends the process: its shard list is empty)
+                        lines.append("close")
+                        lines.append("open %d" % ver)
+                    else:
+                        # export in either order -> WriteSnapshot into a fresh database -> LoadSnapshot
+                        lines.append("xsnap %d %s" % (ver, r.choice(["pre", "post"])))
+                        versions = {ver: dict(working)}
+                        checkpoints = [ver]
+                        wlog = {}
+                        pruned_to = ver
+                        sweep(working)
+                        break     # the property promises the imported tree, not reloading the snapshot database
+                    sweep(working)
+        out.append((hid, lines))
+    return out
